@@ -29,6 +29,7 @@ import (
 	"github.com/dolthub/dolt/go/store/blobstore"
 	"github.com/dolthub/dolt/go/store/hash"
 	"github.com/dolthub/fslock"
+	lru "github.com/hashicorp/golang-lru/v2"
 )
 
 // Verification vocabulary (ghost code, compiled only with -tags verif). The
@@ -185,6 +186,18 @@ var verif_ghost struct {
 	pLockedExists   bool // LockManifest found a manifest
 	pKeepFromLocked bool // the keep set includes the specs of the manifest read under the lock
 
+	// dangling-reference protocol (C07)
+	dGathered   int       // child-address gatherers of the memtable invoked so far
+	dChildAdded bool      // the gathered child addresses were added to the memtable's pending refs
+	dChecked    bool      // the ref checker ran (after that) and returned no error
+	dAbsent     int       // size of the most recently inspected absent set
+	dPersisted  bool      // tablePersister.Persist made the memtable durable (after the check)
+	dRegistered bool      // the child-address gatherer of every chunk added to a memtable was registered on it
+	dRootOK     bool      // errorIfDangling accepted ...
+	dRoot       hash.Hash // ... this root
+	dCacheHit   bool      // the has-cache vouched for the most recently looked-up address
+	dMtCount    uint32    // result of the most recent memTable.count
+
 	bPutOK    bool      // CheckAndPutManifest returned nil
 	bReadLock hash.Hash // lock of the contents most recently read from the blobstore
 }
@@ -269,4 +282,22 @@ func verif_x_file_Remove(name string) (err error) { return nil }
 
 func verif_x_LockManifest(l manifestLocker, ctx context.Context) (lm lockedManifest, err error) {
 	return l.LockManifest(ctx)
+}
+
+func verif_x_checker(reqs []hasRecord) (absent hash.HashSet, err error) { return nil, nil }
+
+func verif_x_HashSet_Size(hs hash.HashSet) (n int) { return hs.Size() }
+
+func verif_x_gatherAddrs(ctx context.Context, addrs hash.HashSet, exists func(hash.Hash) bool) {}
+
+func verif_x_Persist(p tablePersister, ctx context.Context, behavior dherrors.FatalBehavior, mt *memTable, haver chunkReader, keeper keeperF, stats *Stats) (cs chunkSource, gcb gcBehavior, err error) {
+	return p.Persist(ctx, behavior, mt, haver, keeper, stats)
+}
+
+func verif_x_hasCache_Add(c *lru.TwoQueueCache[hash.Hash, struct{}], k hash.Hash, v struct{}) {
+	c.Add(k, v)
+}
+
+func verif_x_hasCache_Get(c *lru.TwoQueueCache[hash.Hash, struct{}], k hash.Hash) (v struct{}, ok bool) {
+	return c.Get(k)
 }
